@@ -1,6 +1,7 @@
 package main
 
 import (
+	"go/types"
 	"fmt"
 	"strings"
 
@@ -24,6 +25,8 @@ func init() {
 			{"C12/bindings", "generator host == file's full address; token written == generator result; gateway host from config; user = session name (split at '@' under domain splitting)", c12Bindings},
 			{"C12/claims", "generator claims = server and user parameters, context clientIp and access token", func(c *Ctx) { c04ClaimFlowAs(c, "C12/claims") }},
 			{"C12/issue-verify-agreement", "placeholder constant and substitution call agree between HandleDownload and security.CheckHost", c12IssueVerify},
+			{"C12/client-address", "the clientIp attribute bound into the token is this request's X-Forwarded-For[0] or TCP peer (C04's source rule)", func(c *Ctx) { c04SourceAs(c, "C12/client-address") }},
+			{"C12/handler-wiring", "every Handler field read on request paths is initialised by NewHandler from the Config field of the same name", c12HandlerWiring},
 		},
 	})
 }
@@ -460,4 +463,67 @@ func c12IssueVerify(c *Ctx) {
 	}
 	c.Check(p1 == p2, rule, "placeholder constant", hd.Pos(), fmt.Sprintf("both sides substitute %q", p1), fmt.Sprintf("issuance substitutes %q, the tunnel check substitutes %q: issued files for placeholder hosts are refused (or match the wrong host)", p1, p2))
 	c.Check(f1 == f2 && n1 == n2, rule, "substitution call", hd.Pos(), fmt.Sprintf("both sides use %s with count %d", f1, n1), fmt.Sprintf("issuance uses %s/%d, verification uses %s/%d", f1, n1, f2, n2))
+}
+
+// c12HandlerWiring: NewHandler copies the configuration into the handler field by field; a field
+// that request code reads but the constructor no longer sets silently turns a check off (an empty
+// expected issuer makes go-jose skip the issuer test).
+func c12HandlerWiring(c *Ctx) {
+	rule := "C12/handler-wiring"
+	nh := c.Fn("cmd/rdpgw/web", "Config.NewHandler")
+	hT := c.NamedType("cmd/rdpgw/web", "Handler").Underlying().(*types.Struct)
+	var lit *ssa.Alloc
+	eachInstr(nh, func(in ssa.Instruction) {
+		if al, ok := in.(*ssa.Alloc); ok && typeIs(al.Type(), webPkgPath, "Handler") {
+			lit = al
+		}
+	})
+	if lit == nil {
+		c.Missing("Handler literal in NewHandler")
+	}
+	set := structFieldStores(lit)
+	// fields read by first-party code outside the constructor
+	read := map[string]bool{}
+	for _, f := range c.allFirstPartyFuncs() {
+		if f == nh {
+			continue
+		}
+		eachInstr(f, func(in ssa.Instruction) {
+			if fa, ok := in.(*ssa.FieldAddr); ok {
+				if _, fv, ok := fieldOfAddr(fa); ok && fv.Pkg() != nil && fv.Pkg().Path() == webPkgPath {
+					if pt, ok := fa.X.Type().Underlying().(*types.Pointer); ok && typeIs(pt.Elem(), webPkgPath, "Handler") {
+						isStore := false
+						for _, r := range *fa.Referrers() {
+							if st, ok := r.(*ssa.Store); ok && st.Addr == ssa.Value(fa) {
+								isStore = true
+							}
+						}
+						if !isStore {
+							read[fv.Name()] = true
+						}
+					}
+				}
+			}
+		})
+	}
+	n := 0
+	for i := 0; i < hT.NumFields(); i++ {
+		name := hT.Field(i).Name()
+		if !read[name] {
+			continue
+		}
+		n++
+		vs := set[name]
+		good := len(vs) == 1
+		how := ""
+		if good {
+			b, cf, ok := fieldLoad(strip(vs[0]))
+			good = ok && b == ssa.Value(nh.Params[0])
+			if ok {
+				how = cf.Name()
+			}
+		}
+		c.Check(good, rule, "Handler."+name, hT.Field(i).Pos(), "initialised from Config."+how, "Handler."+name+" is read while serving requests but NewHandler does not initialise it from the configuration: the behaviour it selects falls back to the zero value")
+	}
+	c.Floor(rule, 6, "handler fields read on request paths")
 }
